@@ -14,6 +14,7 @@ RULE = ('for each (program, scenario in plain / pause+play / kill / failing / ou
         'fault point (step functions, call_soon callbacks, output hooks, all state entry/exit/termination hooks, pause/play hooks, the nine '
         'listener methods, construction); then every (point, occurrence, before|after super) gets one run with a unique exception injected '
         'there -- complete over that finite set; distinct by (program, scenario, point, occurrence, position); non-trivial when the fault fired')
+RULE += ('; also: persistent faults in the state-exit hooks, the generic on_entering / on_entered / on_exiting hooks and set_status() as fault points, scenarios failing the process from outside or pausing it by message, unprintable exceptions, listener faults inside a call back into the process, outline workchain steps and predicates as fault points')
 ASSUMPTIONS = ['one injected fault per run', 'only the identity of the injected exception is judged; "exception never retrieved" reports for '
                'futures replaced on the EXCEPTED path are diagnostics']
 REQUIRED = ['early_future_checks', 'class/outline', 'pp_pause_siblings', 'pp_kill_siblings', 'pp_completed', 'late_callbacks', 'fired', 'class/user', 'class/listener', 'class/pauseplay', 'class/construct', 'class/hook']
